@@ -36,9 +36,14 @@ def loguniform(r, lo, hi):
 
 
 def gen_side(r):
-    k = r.randrange(8)
+    k = r.randrange(9)
     if k == 0 or k == 1:
         return [0.0, 1.0]
+    if k == 8:
+        # a side that straddles zero with non-dyadic ends ([-0.7, 0.4], [-5.12, 5.12]): lo + (hi - lo) need not equal hi
+        a = r.choice([r.uniform(0.1, 6), round(r.uniform(0.1, 6), 1), round(r.uniform(0.1, 6), 2)])
+        b = a if r.random() < 0.3 else r.choice([r.uniform(0.1, 6), round(r.uniform(0.1, 6), 1)])
+        return [-a, b]
     if k == 2:
         lo = r.uniform(-10, 10)
         return [lo, lo + r.uniform(0.1, 5)]
@@ -61,6 +66,8 @@ def gen_side(r):
 def gen_domain(r, dmax=3, unit_prob=0.25):
     d = r.choice([1, 1, 2, 2, 3][: 2 * dmax - 1]) if dmax >= 1 else 1
     d = min(d, dmax)
+    if dmax >= 3 and r.random() < 0.07:
+        d = r.choice([4, 4, 5])     # higher dimensions: 16 / 32 children per DimensionBinary split, long index arithmetic
     if r.random() < unit_prob:
         return [[0.0, 1.0] for _ in range(d)]
     return [gen_side(r) for _ in range(d)]
@@ -79,14 +86,16 @@ def gen_rewards(r, kinds=None, seed=0):
     elif m < 0.22:
         spec["scale"] = -1.0
     spec["types"] = r.choice(["f", "f", "f", "n", "fin", "i" if kind in ("int", "zero") else "f"])
+    if kind in ("int", "zero", "score") and r.random() < 0.3:
+        spec["types"] = r.choice(["I", "Ii", "If"])     # np.int64 scalars (not instances of int)
     if r.random() < 0.1 and "scale" not in spec:
         # rewards riding on a large constant: cancellation in one-pass variance / near-tie comparisons
         spec["offset"] = r.choice([1e3, 1e6, 1e6, 4e6, 1e8, -1e6])
     if r.random() < 0.04:
-        spec = {"kind": "bernoulli", "seed": seed, "p": r.choice([0.2, 0.5, 0.8]), "types": r.choice(["b", "b", "f", "bf", "8"])}
+        spec = {"kind": "bernoulli", "seed": seed, "p": r.choice([0.2, 0.5, 0.8]), "types": r.choice(["b", "b", "f", "bf", "8", "p", "I"])}
     elif r.random() < 0.04:
         # integer scores as narrow NumPy scalars (uint8 / int8): sums of them wrap around unless widened
-        spec = {"kind": r.choice(["score", "score", "int"]), "seed": seed, "types": r.choice(["8", "8", "8f"])}
+        spec = {"kind": r.choice(["score", "score", "int"]), "seed": seed, "types": r.choice(["8", "8", "8f", "6", "6"])}
     if kind == "late":
         spec["late"] = r.randint(1, 120)
     if kind in ("obj", "objneg"):
@@ -260,6 +269,8 @@ def base_scenario(r, seed, algo, *, parts=None, dmax=3, n=None, T=None, real_pro
                   reward_kinds=None, ok_only=False, cap_mode="any", sched_prob=0.0, labels=False, base=None, mid_prob=0.0,
                   neighbour_prob=0.0):
     part = gen_partition(r, parts)
+    if part.get("K", 2) > 2 and r.random() < 0.06:
+        part["K"] = r.choice([6, 7, 8])     # larger arities than the documented examples use
     dom = gen_domain(r, dmax)
     d = len(dom)
     if algo == "VROOM" and arity(part, d) > 4:
@@ -286,6 +297,26 @@ def base_scenario(r, seed, algo, *, parts=None, dmax=3, n=None, T=None, real_pro
     sc["meta"] = meta
     if neighbour_prob and r.random() < neighbour_prob and meta.get("known") is None:
         sc["neighbours"] = [gen_neighbour(r, sc, seed)]
+    return sc
+
+
+def zooming_deep(r, sc, seed):
+    """Zooming driven down one chain of cells to (and past) float resolution: rho close to 1, nu large enough for the
+    confidence radius to meet nu*rho^depth at every pull, and rewards riding on a constant that dwarfs the index of a
+    fresh arm, so the arm with a history is played every round and its cell is refined every round."""
+    sc["params"] = {"nu": loguniform(r, 2, 30), "rho": r.uniform(0.97, 0.995)}
+    sc["rewards"] = {"kind": r.choice(["unit", "const", "fewlevels", "gauss"]), "seed": seed, "types": "f",
+                     "offset": r.choice([1e2, 1e3, 1e3, 1e4])}
+    if sc["rewards"]["kind"] == "const":
+        sc["rewards"]["value"] = 0.5
+    sc["rounds"] = r.choice([80, 120, 200, 400])
+    sc["budget"] = max(sc.get("budget") or 0, sc["rounds"])
+    if r.random() < 0.6:
+        sc["domain"] = sc["domain"][:1]
+        sc.pop("aliased_rows", None)
+    if r.random() < 0.5:
+        sc["partition"] = dict(r.choice(PARTS_MIDPOINT))
+    sc["neighbours"] = []
     return sc
 
 
